@@ -385,6 +385,14 @@ def _replay(sub, pairs):
               for k, (f, iu, wu) in enumerate(queries)]
         rows.append(dict(s=s, t=t, tx=tx, recs=tab.recs, grecs=gtab.recs, qs=qs))
         sub.count(len(qs))
+        if s != t and len(sub.cov["samples"]) < 1:
+            k = next((k for k, q in enumerate(qs) if q["f"] != ["all"]), 0)
+            sub.sample({"source": _short(s), "target": _short(t), "extras_in": tx,
+                        "query": {"specific_files": None if qs[k]["f"] == ["all"] else ["/".join(p) for p in qs[k]["f"][1]],
+                                  "include_unchanged": qs[k]["iu"], "want_unversioned": qs[k]["wu"]},
+                        "InterDirStateTree": [tab.recs[n - 1] for n in qs[k]["o"]["ds"]],
+                        "InterInventoryTree(working tree)": [tab.recs[n - 1] for n in qs[k]["o"]["wt"]],
+                        "InterGitTrees(working tree)": [gtab.recs[n - 1] for n in qs[k]["g"]["wt"]]})
         if s != t:
             for q in qs:
                 sub.nontrivial((tree_key(s), tree_key(t), tuple(tx), json.dumps(q["f"]), q["iu"], q["wu"]))
